@@ -55,6 +55,32 @@ def InvB (v : Nat) (st : State) : Prop :=
 def InvC (v : Nat) (st : State) : Prop :=
   ∃ c, ∀ i, ∃ b, okSame v c b (st.th i).rem = true ∧ (b = true → st.store v = c ∧ (st.th i).priv v = c)
 
+/-- (D) nobody will ever read `v`. -/
+def InvD (v : Nat) (st : State) : Prop := ∀ i, noRead v (st.th i).rem = true
+
+theorem invD_step (v : Nat) (st : State) (j : Nat) (h : InvD v st) : InvD v (step st j) := by
+  have hj := h j
+  cases hrem : (st.th j).rem with
+  | nil => rw [step_nil hrem]; exact h
+  | cons a rest =>
+    rw [hrem] at hj
+    have tail : noRead v rest = true := by
+      cases a <;> simp only [noRead, Bool.and_eq_true] at hj <;> first | exact hj.2 | exact hj
+    have key : ∀ (t : Thread), t.rem = rest → ∀ i, noRead v ((upd st.th j t) i).rem = true := by
+      intro t ht i
+      by_cases e : i = j
+      · subst e; simpa [ht] using tail
+      · simpa [upd_other _ _ e] using h i
+    cases a with
+    | read v' => rw [step_read hrem]; exact key _ rfl
+    | write v' x => rw [step_write hrem]; exact key _ rfl
+    | incr v' => rw [step_incr hrem]; exact key _ rfl
+    | acq l =>
+      cases hl : st.holder l with
+      | some k => rw [step_acq_blocked hrem hl]; exact h
+      | none => rw [step_acq_free hrem hl]; exact key _ rfl
+    | rel l => rw [step_rel hrem]; exact key _ rfl
+
 theorem invA_step (init : Store) (v : Nat) (st : State) (j : Nat) (h : InvA init v st) : InvA init v (step st j) := by
   obtain ⟨h1, h2, h3⟩ := h
   have hj := h1 j
@@ -316,7 +342,7 @@ theorem invB_step (v : Nat) (st : State) (j : Nat) (h : InvB v st) : InvB v (ste
 
 /-! ### every call observes what it observes alone -/
 
-def Kinds (init : Store) (st : State) : Prop := ∀ v, InvA init v st ∨ InvB v st ∨ InvC v st
+def Kinds (init : Store) (st : State) : Prop := ∀ v, InvA init v st ∨ InvB v st ∨ InvC v st ∨ InvD v st
 
 /-- observed so far, followed by what the call would observe finishing alone = its solo observations -/
 def ObsInv (target : Nat → List Int) (st : State) : Prop :=
@@ -324,14 +350,19 @@ def ObsInv (target : Nat → List Int) (st : State) : Prop :=
 
 theorem kinds_step (init : Store) (st : State) (j : Nat) (h : Kinds init st) : Kinds init (step st j) := by
   intro v
-  rcases h v with h | h | h
+  rcases h v with h | h | h | h
   · exact Or.inl (invA_step init v st j h)
   · exact Or.inr (Or.inl (invB_step v st j h))
-  · exact Or.inr (Or.inr (invC_step v st j h))
+  · exact Or.inr (Or.inr (Or.inl (invC_step v st j h)))
+  · exact Or.inr (Or.inr (Or.inr (invD_step v st j h)))
 
 theorem read_sees_own {init : Store} {st : State} {j v : Nat} {rest : List Action} (hk : Kinds init st)
     (hrem : (st.th j).rem = .read v :: rest) : st.store v = (st.th j).priv v := by
-  rcases hk v with ⟨_, h2, h3⟩ | ⟨l, hl⟩ | ⟨c, hc⟩
+  rcases hk v with ⟨_, h2, h3⟩ | ⟨l, hl⟩ | ⟨c, hc⟩ | hd
+  rotate_left 3
+  · have := hd j
+    rw [hrem] at this
+    simp [noRead] at this
   · rw [h2, h3 j]
   · obtain ⟨b, hb, hbs⟩ := hl j
     rw [hrem] at hb
@@ -345,7 +376,11 @@ theorem read_sees_own {init : Store} {st : State} {j v : Nat} {rest : List Actio
 
 theorem incr_sees_own {init : Store} {st : State} {j v : Nat} {rest : List Action} (hk : Kinds init st)
     (hrem : (st.th j).rem = .incr v :: rest) : st.store v = (st.th j).priv v := by
-  rcases hk v with ⟨h1, _, _⟩ | ⟨l, hl⟩ | ⟨c, hc⟩
+  rcases hk v with ⟨h1, _, _⟩ | ⟨l, hl⟩ | ⟨c, hc⟩ | hd
+  rotate_left 3
+  · have := hd j
+    rw [hrem] at this
+    simp [noRead] at this
   · have := h1 j
     rw [hrem] at this
     simp [noWrite] at this
@@ -454,7 +489,11 @@ theorem kinds_start (init : Store) (calls : List (List Action)) (hd : discipline
         exact hm (List.mem_flatMap.mpr ⟨c, hc, hvc⟩)
       simp [disciplinedVar, this]
   simp only [disciplinedVar, Bool.or_eq_true] at hv
-  rcases hv with (hA | hB) | hC
+  rcases hv with ((hA | hB) | hC) | hD
+  rotate_left 3
+  · right; right; right
+    intro i
+    exact getD_all calls hD rfl i
   · left
     refine ⟨fun i => ?_, rfl, fun i => rfl⟩
     exact getD_all calls hA rfl i
@@ -464,7 +503,7 @@ theorem kinds_start (init : Store) (calls : List (List Action)) (hd : discipline
     refine ⟨l, fun i => ⟨false, ?_, fun _ hb => by simp at hb⟩⟩
     have := getD_all (P := okLocked v l false false) calls hl rfl i
     simpa [start] using this
-  · right; right
+  · right; right; left
     simp only [kindC, List.any_eq_true] at hC
     obtain ⟨c, _, hc⟩ := hC
     refine ⟨c, fun i => ⟨false, ?_, fun hb => by simp at hb⟩⟩
